@@ -125,6 +125,12 @@ def run_case(case, workdir):
     with vpool.controlled():
         pck = PlotfileCooker(path)
         names = reader_names(desc["fields"])
+        if len(set(desc["fields"])) != len(desc["fields"]):
+            # repeated header names: the keys are whatever unique names the reader exposes, in header order (C02 checks that)
+            names = list(pck.fields.keys())
+            if len(names) != len(desc["fields"]) or [pck.fields[k] for k in names] != list(range(len(names))):
+                rec.fail("raised", {"field": ["names"], "level": 0, "box": ["int", 0], "class": "A"}, "reader exposes %r for header %r" % (dict(pck.fields), desc["fields"]))
+                return rec.result()
         fsels = list(S.field_selectors(names))
         nlev = ref.nlevels
         for lvtag, lvcls, lv in S.level_selectors(nlev):
